@@ -391,6 +391,19 @@ def layout_variants(text, lg, rnd, nrandom):
     variants["crlf"] = text.replace("\n", "\r\n")
     variants["cr"] = text.replace("\n", "\r")
     variants["tabs"] = "\n".join(("\t" + l[4:] if l.startswith("    ") else l) for l in lines)
+    # combinations (the property quantifies over all combinations of the edits): tab indentation x comments / blank lines / spacing x
+    # line-ending style x final newline
+    def tabbed(t):
+        return "\n".join(("\t" + l[4:] if l.startswith("    ") else l) for l in t.split("\n"))
+    variants["tabs_cr"] = variants["tabs"].replace("\n", "\r")
+    variants["tabs_crlf"] = variants["tabs"].replace("\n", "\r\n")
+    for base in ("comments", "blank_and_comment_lines", "spaces3"):
+        tb = tabbed(variants[base])
+        variants[base + "_tabs"] = tb
+        variants[base + "_tabs_cr"] = tb.replace("\n", "\r")
+        variants[base + "_tabs_crlf"] = tb.replace("\n", "\r\n")
+    variants["tabs_cr_no_final_newline"] = variants["tabs_cr"].rstrip("\r")
+    variants["crlf_no_final_newline"] = variants["crlf"].rstrip("\r\n")
     variants["no_final_newline"] = text.rstrip("\n")
     variants["extra_final_newlines"] = text + "\n\n"
     variants["leading_blank_lines"] = "\n\n" + text
@@ -436,7 +449,7 @@ def _via_file(bb, text):
         shutil.rmtree(d, ignore_errors=True)
 
 
-FILE_VARIANTS = ("cr", "comments_cr", "comments_crlf", "comments", "blank_and_comment_lines_cr", "tabs", "no_final_newline")
+FILE_VARIANTS = ("cr", "comments_cr", "comments_crlf", "comments", "blank_and_comment_lines_cr", "tabs", "no_final_newline", "tabs_cr", "comments_tabs_crlf", "spaces3_tabs_cr")
 
 
 def o6_run(arg):
